@@ -2,6 +2,20 @@
 EXTENDS Ctxt
 \* context instances: ThreadLocalCtxt::new() (stores 1, 2) and ThreadLocalCtxt::shared() (store 0)
 MC_Store1 == <<1>>
+MC_Kind1 == <<"new">>
+MC_KindD1 == <<"default">>
+MC_Kind2 == <<"new", "shared">>
+MC_Kind3 == <<"new", "shared", "shared">>
+MC_Kind4 == <<"new", "new", "shared", "shared">>
+\* every public way to a context instance: two default(), one from emit::setup(), one new(), two shared()
+MC_StoreQ == <<1, 2, 3, 0, 0>>
+MC_KindQ == <<"default", "default", "setup", "shared", "shared">>
+MC_StoreQ4 == <<1, 2, 3, 0>>
+MC_KindQ4 == <<"default", "default", "setup", "shared">>
+MC_StoreT == <<1, 2, 3, 4, 0, 0>>
+MC_KindT == <<"default", "default", "setup", "new", "shared", "shared">>
+MC_StoreS == <<1, 2, 0>>
+MC_KindS == <<"default", "setup", "shared">>
 MC_Store2 == <<1, 0>>
 MC_Store3 == <<1, 0, 0>>
 MC_Store4 == <<1, 2, 0, 0>>
@@ -13,5 +27,5 @@ MC_PushRoot == {"push", "root"}
 MC_AllForms == {"guard", "call"}
 MC_Guard == {"guard"}
 
-ASSUME PrintT(<<"STORES", ToJson(StoreOf)>>)
+ASSUME PrintT(<<"STORES", ToJson([i \in 1..Len(StoreOf) |-> [store |-> StoreOf[i], kind |-> InstKind[i]]])>>)
 =============================================================================
